@@ -141,6 +141,11 @@ func (s *Seam) Chtimes(name string, a, m time.Time) error {
 	return s.simple("chtimes", name, "", true, func() error { return s.Inner.Chtimes(name, a, m) })
 }
 
+// ForceRemoveIfPossible makes the seam an IForceRemover ("sudo rm -rf"): one backend call doing unbounded work.
+func (s *Seam) ForceRemoveIfPossible(name string) error {
+	return s.simple("forceremove", name, "", true, func() error { return s.Inner.RemoveAll(name) })
+}
+
 func (s *Seam) Stat(name string) (os.FileInfo, error) {
 	var fi os.FileInfo
 	err := s.simple("stat", name, "", false, func() error {
